@@ -139,6 +139,21 @@ def verifyMd5 (st : Store) (u resp salt : Bytes) : Bool :=
       expected == hashToCompare
     | none => false
 
+/-- `auth.method` of the server configuration (the methods that check a secret) -/
+inductive AuthMethod where
+  | password
+  | md5
+  deriving Repr, DecidableEq
+
+/-- the login step of `ConnectionHandler::handle_startup` / `authenticate`: the account that is
+    checked is the one named by the startup parameter `user` — the requested `database` plays no
+    part — with the verifier of the configured method (`secret` is the content of the client's
+    PasswordMessage: the password, resp. the MD5 response to `salt`) -/
+def login (C : CryptoOps) (method : AuthMethod) (st : Store) (user _database secret salt : Bytes) : Bool :=
+  match method with
+  | .password => verifyCleartext C st user secret
+  | .md5 => verifyMd5 st user secret salt
+
 /-- Argon2 with the laws the property needs: hashes are rendered with the `$argon2` tag, a
     rendered hash parses, and it verifies exactly the password it was created from -/
 structure Crypto extends CryptoOps where
